@@ -615,7 +615,7 @@ CHECK = Check(
     assumptions=[
         "urllib.parse.urlsplit / urlunsplit (incl. tab/CR/LF and leading C0/space stripping, port validation, scheme lower-casing) and the IDNA codec are opaque: the harness splits with urllib, applies the IDNA step with the same calls the code makes, and hands components to the model; hosts that IDNA rejects and ports urlsplit rejects are outside the URL grammar",
         "urllib.parse.quote / unquote and bytes.decode with werkzeug's codec error handler are hand-modelled from CPython 3.12 (maximal-subpart error spans) and validated by stream quote-kernel, not verified",
-        "the one-step fixpoint claims are checked for URLs whose every '%' starts a two-hex-digit escape (the property's '%XX' grammar); a bare '%' is only compared against the model",
+        "the one-step fixpoint / round-trip claims (theorems and oracle) are for text whose every '%' starts a two-hex-digit escape (the property's '%XX' grammar); a bare '%' is only compared against the model, and the negation is proved on the witness '%%34%31'",
         "environ-roundtrip is stated for paths starting with one '/', without '%', '?', '#' (URL syntax for EnvironBuilder's path argument: these are interpreted, not transported); tab/CR/LF in the path are removed by urlsplit inside EnvironBuilder (known finding F15c); queries are arbitrary str mappings without lone surrogates; it is an oracle-only stream (EnvironBuilder, Request are not modelled beyond the dances and the safe sets)",
         "DispatcherMiddleware is modelled on the raw environ strings (it compares mount keys with PATH_INFO as is)",
     ],
@@ -625,8 +625,8 @@ CHECK = Check(
 )
 
 MANIFEST = {
-    "level_text": "Machine-checked Lean 4 theorems about an executable model of urllib quote/unquote with werkzeug's error handler, iri_to_uri / uri_to_iri on split components, the latin-1 dances and DispatcherMiddleware's mount loop: quote output is ASCII for every input and idempotent for every safe set iri_to_uri uses (decide on the literals collected from the AST on every run), hence iri_to_uri is ASCII and idempotent component-wise; the dance round trip is lossless for every string; uri_to_iri is a fixpoint after one step on every component whose '%' all start '%XX' escapes (UTF-8 decoder with CPython's error spans modelled; keep tables evaluated from the live patterns); the dispatcher preserves SCRIPT_NAME+PATH_INFO and picks the longest '/'-boundary mount. Tied to the code by differential streams; the stability of IRI->URI->IRI and the EnvironBuilder/Request round trip are validated by oracle streams only.",
-    "level_note": "Trusted: Lean kernel; extract.py; the correspondence harness; CPython urllib/codecs for modelled primitives. urlsplit/urlunsplit and IDNA are opaque. IRI->URI->IRI stability (iri_uri_iri) is OPEN (stream-checked only). Known findings F15a (malformed xn-- label crashes uri_to_iri), F15b (%5B/%5D unquoted in userinfo), F15c (EnvironBuilder drops TAB/CR/LF from the path).",
+    "level_text": "Machine-checked Lean 4 theorems about an executable model of urllib quote/unquote with werkzeug's error handler, iri_to_uri / uri_to_iri on split components, the latin-1 dances and DispatcherMiddleware's mount loop: quote output is ASCII for every input and idempotent for every safe set iri_to_uri uses (decide on the literals collected from the AST on every run), hence iri_to_uri is ASCII and idempotent component-wise; the dance round trip is lossless for every string; uri_to_iri is a fixpoint after one step on every component whose '%' all start '%XX' escapes (UTF-8 decoder with CPython's error spans modelled; keep tables evaluated from the live patterns); the dispatcher preserves SCRIPT_NAME+PATH_INFO and picks the longest '/'-boundary mount. IRI->URI->IRI is stable after one round for every component of that grammar (the model's UTF-8 decoder and Lean's encoder are proved mutually inverse); unquote inverts quote on text without '%', hence the path given to EnvironBuilder reaches Request.path unchanged through the dances. Tied to the code by differential streams; the query/host/url part of the EnvironBuilder/Request round trip is validated by an oracle stream only.",
+    "level_note": "Trusted: Lean kernel; extract.py; the correspondence harness; CPython urllib/codecs for modelled primitives. urlsplit/urlunsplit and IDNA are opaque. All DESIGN theorems (P0, P1) proved. Known findings F15a (malformed xn-- label crashes uri_to_iri), F15b (%5B/%5D unquoted in userinfo), F15c (EnvironBuilder drops TAB/CR/LF from the path).",
     "technique": "Lean 4 proof (induction over byte lists, decide over AST-collected literals and regenerated keep tables, loop invariant for the dispatcher) + model/code correspondence + property oracles",
     "design_ref": "DESIGN.md section 4, C15",
 }
